@@ -212,3 +212,30 @@ package host
 //@   requires @one-host-per-address-in-a-call forall a int, b int :: 0 <= a && a < b && b < len(hosts) ==> hosts[a].Addr != hosts[b].Addr
 //@   modifies aval
 //@   ensures @well-formed result != nil && fresh(result) && setok(result) && (len(hosts) > 0 ==> cachefresh(result))
+
+// ---- C15/C06: read accessors of the member map ------------------------------------------------------------------
+
+//@ func (*Set).All
+//@   prop C15 C06
+//@   requires set != nil && set.all != nil && forall a string :: has(set.all, a) ==> set.all[a] != nil
+//@   modifies nothing
+//@   ensures @no-nil-entries forall k int :: 0 <= k && k < len(result) ==> result[k] != nil
+//@   ensures @as-many-as-members len(result) == len(set.all)
+//@   loop 0 invariant (cap(hosts) == 0 || fresh(hosts)) && len(hosts) == iterated0 && forall k int :: 0 <= k && k < len(hosts) ==> hosts[k] != nil
+
+//@ func (*Set).Len
+//@   prop C15
+//@   requires set != nil
+//@   modifies nothing
+//@   ensures @number-of-members result == len(set.all)
+
+//@ func (*Set).Exist
+//@   prop C15 C06
+//@   requires set != nil
+//@   modifies nothing
+//@   ensures @membership-by-address result == has(set.all, addr)
+
+//@ func New
+//@   prop C15 C08
+//@   modifies atombool
+//@   ensures @a-main-host-at-the-address result != nil && fresh(result) && result.Addr == addr && result.Type == 0
